@@ -273,7 +273,7 @@ def check_state(ctx, model, w, hist, routes=None, perm=None):
                     op=['probe', route, comp.name], perm=perm)
         ctx.violation('c20:%s:%s:%s' % (route, fam, kind), case,
                       '%s after %s, component %s, route %s: %s' % (model.name, json.dumps(hist), comp.name, route, msg),
-                      exp, obs, unit_test=unit_test(model, w, comp.name))
+                      exp, obs, unit_test=unit_test(model, w, comp.name, route))
 
     def compare(route, comp, obs):
         ctx.count('evaluations')
@@ -388,8 +388,11 @@ def check_state(ctx, model, w, hist, routes=None, perm=None):
                 compare('main', comp, obs)
 
 
-def unit_test(model, w, comp_name):
-    lines = bp.snippet_model(model.base, w)
+def unit_test(model, w, comp_name, route):
+    if route == 'reversed':
+        lines = ['text = %r    # the INSERT statements of the model in reverse order' % bp.render(bp.reversed_rows(w.rows))]
+    else:
+        lines = bp.snippet_model(model.base, w)
     lines += ['import tempfile, os',
               'from bridgepoint import gen_xsd_schema',
               'd = tempfile.mkdtemp()',
